@@ -123,10 +123,15 @@ func (s *stream) Reassembled(rs []tcpassembly.Reassembly) {
 	vsync.Yield("Reassembled")
 	off := keyOffset(s.key)
 	for _, r := range rs {
+		foreign := false
 		for _, b := range r.Bytes {
 			if int(b-'a') < off || int(b-'a') >= off+n {
 				s.w.fail("bytes-of-another-connection", fmt.Sprintf("stream of %s was handed byte %q", s.key, b))
+				foreign = true
 			}
+		}
+		if foreign {
+			s.judged = false // the order oracle is meaningless once foreign bytes arrived; one finding, one key
 		}
 		if s.judged {
 			d := tm.Delivery{Skip: r.Skip, Bytes: unshift(r.Bytes, off), Start: r.Start, End: r.End}
